@@ -132,6 +132,8 @@ class NpModuleEnv(ModuleEnv):
                 return VConst(('dtype_kind', base.t))
             if attr == 'type':
                 return VConst(('dtype_type', base.t))
+            if attr == 'itemsize':      # an uninterpreted function of the dtype (different dtypes may share kind and width: datetime64 units, int64 / uint64)
+                return VInt(z3.Function('dtype_itemsize', DTYPE, z3.IntSort())(base.t))
         return super().attr_model(base, attr, eng, st)
 
     def getitem_model(self, base, idx, eng, st, node):
